@@ -172,10 +172,36 @@ def ratToFloat (q : Rat) : Float :=
   let f := Float.scaleB (Float.ofNat qn) (-s)
   if q.num < 0 then -f else f
 
-def vsmall : Float := 1e-6
+/-- exact value of a float constant regenerated from the source as (numerator, denominator) -/
+def constOf (p : Int × Nat) : Float := ratToFloat (mkRat p.1 p.2)
+
+/-- `constants.VSMALL`, regenerated -/
+def vsmall : Float := constOf CBV.Gen.c14Vsmall
+
+/-- (base, exponent, factor) of one `q_scale(...)` call of `CellBase.quality` -/
+structure QS where
+  base : Float
+  exponent : Float
+  factor : Float
+
+/-- the constants of the `i`-th `q_scale` call in source order (0 non-orthogonality, 1 inner angle, 2 aspect),
+    regenerated from the source on every run (`c14QScale`) -/
+def qsAt (i : Nat) : QS :=
+  match CBV.Gen.c14QScale.getD i [] with
+  | [b, e, f] => ⟨constOf b, constOf e, constOf f⟩
+  | _ => ⟨0.0, 0.0, 0.0⟩
+
+/-- the regenerated table has the shape the model computes with: three calls, three constants each; otherwise
+    the model refuses every request -/
+def qTablesOk : Bool :=
+  CBV.Gen.c14QScale.length == 3 && CBV.Gen.c14QScale.all (fun t => t.length == 3 && t.all (fun p => p.2 != 0)) &&
+    CBV.Gen.c14Vsmall.2 != 0
+
 def pi : Float := 3.141592653589793
 
 def qScale (base exponent factor value : Float) : Float := factor * Float.pow base (exponent * value) - factor
+
+def qScaleWith (q : QS) (value : Float) : Float := qScale q.base q.exponent q.factor value
 
 def clip1 (x : Float) : Float := if x < -1.0 then -1.0 else if x > 1.0 then 1.0 else x
 
@@ -186,6 +212,9 @@ def fsum (xs : List Float) : Float := xs.foldl (· + ·) 0.0
 /-- `G_ε`: the value the code computes from the signature (`eps` = VSMALL; hex cells guard the
     normal and the corner sides, quad cells only the shortest edge). -/
 def G (quad : Bool) (eps : Float) (s : Sig) : Float :=
+  let q0 := qsAt 0
+  let q1 := qsAt 1
+  let q2 := qsAt 2
   let triCos (t : Tri) : Float :=
     let n := Float.sqrt (ratToFloat t.nn)
     let c := Float.sqrt (ratToFloat t.cc)
@@ -194,19 +223,22 @@ def G (quad : Bool) (eps : Float) (s : Sig) : Float :=
     let a := Float.sqrt (ratToFloat t.nn)
     let b := Float.sqrt (ratToFloat t.cc)
     if quad then ratToFloat t.nc / (a * b) else ratToFloat t.nc / ((a + eps) * (b + eps))
-  let nonortho := fsum (s.tris.map (fun t => qScale 1.25 0.35 0.8 (degOfCos (triCos t))))
-  let inner := fsum (s.corners.map (fun t => qScale 1.5 0.25 0.15 (Float.abs (degOfCos (cornerCos t) - 90.0))))
+  let nonortho := fsum (s.tris.map (fun t => qScaleWith q0 (degOfCos (triCos t))))
+  let inner := fsum (s.corners.map (fun t => qScaleWith q1 (Float.abs (degOfCos (cornerCos t) - 90.0))))
   let smax := Float.sqrt (ratToFloat (maxL s.edges))
   let smin := Float.sqrt (ratToFloat (minL s.edges)) + eps
-  let aspect := qScale 3.0 2.5 3.0 (Float.log10 (smax / smin))
+  let aspect := qScaleWith q2 (Float.log10 (smax / smin))
   nonortho + inner + aspect
 
 /-- `G₀`: the idealised value (no guard) from the scale-free form alone -/
 def G0 (s : Sig0) : Float :=
+  let q0 := qsAt 0
+  let q1 := qsAt 1
+  let q2 := qsAt 2
   let cosOf (t : Tri0) : Float := Float.ofInt t.s * Float.sqrt (ratToFloat t.r)
-  let nonortho := fsum (s.tris.map (fun t => qScale 1.25 0.35 0.8 (degOfCos (cosOf t))))
-  let inner := fsum (s.corners.map (fun t => qScale 1.5 0.25 0.15 (Float.abs (degOfCos (cosOf t) - 90.0))))
-  let aspect := qScale 3.0 2.5 3.0 (Float.log10 (Float.sqrt (ratToFloat s.aspect2)))
+  let nonortho := fsum (s.tris.map (fun t => qScaleWith q0 (degOfCos (cosOf t))))
+  let inner := fsum (s.corners.map (fun t => qScaleWith q1 (Float.abs (degOfCos (cosOf t) - 90.0))))
+  let aspect := qScaleWith q2 (Float.log10 (Float.sqrt (ratToFloat s.aspect2)))
   nonortho + inner + aspect
 
 /-- `CellBase.quality` (`none` = `ValueError`); evaluated on the canonical (sorted) signature, so that
@@ -371,6 +403,7 @@ def handleHist (args : List String) : Option String :=
   | _ => none
 
 def handle (op : String) (args : List String) : Option String :=
+  if !qTablesOk then none else
   match op with
   | "c14.hist" => handleHist args
   | "c14.grid" => handleGrid args
